@@ -9,6 +9,7 @@
 #include "PropertyHDF5.hpp"
 
 #include <nix/util/util.hpp>
+#include <nix/verif_hooks.hpp>
 #include <nix/Version.hpp>
 
 #include <iostream>
@@ -63,6 +64,13 @@ PropertyHDF5::PropertyHDF5(const std::shared_ptr<IFile> &file, const DataSet &da
         forceUpdatedAt();
     }
 
+#ifdef NIX_VERIF_HOOKS
+    if (nix::verif::armed()) {
+        std::string previous;
+        dataset.getAttr("entity_id", previous);
+        nix::verif::emit("id.write", dataset.name() + "\t" + previous + "\t" + id);
+    }
+#endif
     dataset.setAttr("entity_id", id);
     setUpdatedAt();
     forceCreatedAt(time);
